@@ -7,7 +7,8 @@
    /repo/solver/CMakeLists.txt, REGENERATED into gen/Gen_init.v on every run: whenever the body of Interval (Impulse)
    holds in an environment, the atom is well-formed (start <= end is derived through duration); origin and horizon satisfy
    0 <= origin <= horizon; (c) on the model of the four new_atom functions: the temporal rule is among the rules applied
-   to every fact of an interval / impulse predicate.  Gap: that the planner keeps the guard of these rules true for
+   to every fact of an interval / impulse predicate, whatever owns the predicate (plain, StateVariable, ReusableResource, Agent: a predicate that is
+   both an impulse and an interval gets both).  Gap: that the planner keeps the guard of these rules true for
    active atoms is observed on solutions (C01 checker), not proved for the C++. *)
 From Coq Require Import List NArith ZArith QArith Bool.
 From ORatio Require Import plan.Ast plan.Sem plan.Check gen.Gen_init plan.Temporal proofs.Check_Proofs proofs.Temporal_Proofs.
@@ -50,7 +51,6 @@ Print Assumptions C06_init_declares_interval_and_impulse.
 
 Theorem C06_fact_gets_interval_rule : forall prog pd names,
   In id_Interval names ->
-  (owner_kind_of prog pd = OwnAgent -> ~ In id_Impulse names) ->
   In id_Interval (fact_rules prog pd names) \/ In id_Use (fact_rules prog pd names).
 Proof. exact fact_rules_interval. Qed.
 Print Assumptions C06_fact_gets_interval_rule.
@@ -61,9 +61,7 @@ Proof. exact use_chain_has_interval. Qed.
 Print Assumptions C06_use_extends_interval.
 
 Theorem C06_fact_gets_impulse_rule : forall prog pd names,
-  In id_Impulse names ->
-  (owner_kind_of prog pd = OwnSV \/ owner_kind_of prog pd = OwnRR -> False) ->
-  In id_Impulse (fact_rules prog pd names).
+  In id_Impulse names -> In id_Impulse (fact_rules prog pd names).
 Proof. exact fact_rules_impulse. Qed.
 Print Assumptions C06_fact_gets_impulse_rule.
 
